@@ -307,6 +307,25 @@ func isUnknownHelper(f *ssa.Function) bool {
 // The term builder handed to the visitor resolves a helper's parameters to the caller's argument terms, so that
 // a pattern written against f's own values still matches after part of f was extracted into a helper.
 func deepInstrs(f *ssa.Function, visit func(g *ssa.Function, tb *TB, b *ssa.BasicBlock, in ssa.Instruction)) {
+	deepInstrsTB(f, NewTB(), visit)
+}
+
+// closureTB: a term builder for the body of the function literal (or bound method value) created at mc, with the
+// captured variables resolved to the creating function's terms (built by ctb).
+func closureTB(mc *ssa.MakeClosure, ctb *TB) *TB {
+	fn := mc.Fn.(*ssa.Function)
+	tb := NewTB()
+	tb.fvbind = map[*ssa.FreeVar]*Term{}
+	for i, fv := range fn.FreeVars {
+		if i < len(mc.Bindings) {
+			tb.fvbind[fv] = ctb.Of(mc.Bindings[i])
+		}
+	}
+	return tb
+}
+
+// deepInstrsTB is deepInstrs with the term builder for f's own values supplied by the caller.
+func deepInstrsTB(f *ssa.Function, root *TB, visit func(g *ssa.Function, tb *TB, b *ssa.BasicBlock, in ssa.Instruction)) {
 	var walk func(g *ssa.Function, tb *TB, depth int, stack []*ssa.Function)
 	walk = func(g *ssa.Function, tb *TB, depth int, stack []*ssa.Function) {
 		allInstrs(g, func(b *ssa.BasicBlock, in ssa.Instruction) {
@@ -334,7 +353,7 @@ func deepInstrs(f *ssa.Function, visit func(g *ssa.Function, tb *TB, b *ssa.Basi
 			walk(h, htb, depth+1, append(stack, g))
 		})
 	}
-	walk(f, NewTB(), 0, nil)
+	walk(f, root, 0, nil)
 }
 
 // mapCopy is one key-by-key copy of a map into another: a range loop whose body stores the entry's own value under
@@ -399,4 +418,27 @@ func (a mapCopy) before(b mapCopy) bool {
 		return a.Idx < b.Idx
 	}
 	return a.Block.Dominates(b.Block) && !b.Block.Dominates(a.Block)
+}
+
+// deepRangeLoops: the slice range loops of f and of the helpers the rule tables do not know that f calls (depth 3),
+// each with the term of the ranged collection as seen from f (helper parameters resolved to f's argument terms).
+type deepLoop struct {
+	fn   *ssa.Function
+	lp   *loopInfo
+	over *Term
+}
+
+func deepRangeLoops(f *ssa.Function) []deepLoop {
+	var out []deepLoop
+	seen := map[*ssa.Function]bool{}
+	deepInstrs(f, func(g *ssa.Function, tb *TB, _ *ssa.BasicBlock, _ ssa.Instruction) {
+		if seen[g] {
+			return
+		}
+		seen[g] = true
+		for _, l := range rangeLoops(g) {
+			out = append(out, deepLoop{fn: g, lp: l, over: tb.Of(l.over)})
+		}
+	})
+	return out
 }
